@@ -754,7 +754,7 @@ theorem pick_post (s : St) (h : Good s) : Good (pick s).1 ∧ ReadyOK (pick s).1
 /-- the fake channel's rules (what the real channel guarantees to a balancer) -/
 def opOk (s : St) : Op → Bool
   | .sc id x _ => decide (1 ≤ id ∧ id ≤ s.scSerial) && (x != .shutdown || (activeSC s id).isNone)
-  | .health id _ _ => (activeSC s id).any fun sc => sc.healthReg && sc.raw == .ready
+  | .health id _ _ => (activeSC s id).all fun sc => sc.healthReg && sc.raw == .ready
   | _ => true
 
 theorem step_post (s : St) (op : Op) (h : Good s) (hok : opOk s op = true) :
@@ -766,7 +766,7 @@ theorem step_post (s : St) (op : Op) (h : Good s) (hok : opOk s op = true) :
   | health id st err =>
     apply healthState_post s id st err h
     intro sd hsd
-    simp only [opOk, hsd, Option.any_some, Bool.and_eq_true, beq_iff_eq] at hok
+    simp only [opOk, hsd, Option.all_some, Bool.and_eq_true, beq_iff_eq] at hok
     exact hok.2
   | tick => exact timerFire_post s h
   | exitIdle => exact exitIdle_post s h
